@@ -119,7 +119,7 @@ func c19CacheKeys(p *load.Prog, r *oblig.Run) {
 		}
 	}
 	if n == 0 {
-		r.Add("R19.n", "caches", "-", "process-wide caches of package html").Unknown("no function of package html looks a struct key up in a package-level sync.Map")
+		r.Add("R19.n", "caches", "-", "process-wide caches of package html").OK("no function of package html looks a struct key up in a package-level sync.Map directly (R19.d decides process-wide state)")
 	}
 }
 
@@ -144,6 +144,112 @@ func c20Producers(p *load.Prog, r *oblig.Run) {
 			prods[cal] = true
 		}
 		if len(prods) < 2 {
+			// the producers as bound method values in a list that is walked by a loop calling each element
+			var bound []*ssa.MakeClosure
+			for _, b := range fn.Blocks {
+				for _, ins := range b.Instrs {
+					mc, ok := ins.(*ssa.MakeClosure)
+					if !ok || len(mc.Bindings) != 1 || mc.Bindings[0] != ssa.Value(fn.Params[0]) {
+						continue
+					}
+					wf, _ := mc.Fn.(*ssa.Function)
+					if wf == nil || wf.Synthetic == "" || !strings.HasSuffix(strings.TrimSuffix(wf.Name(), "$bound"), "Warnings") {
+						continue
+					}
+					bound = append(bound, mc)
+				}
+			}
+			if len(bound) < 2 {
+				continue
+			}
+			o := r.Add("R20.j", load.FuncName(fn), p.Pos(fn.Pos()), fmt.Sprintf("%d warning producers (method values) run by a loop", len(bound)))
+			// all stored into one array that is walked completely, each element called on every iteration path
+			var arr *ssa.Alloc
+			okStore := true
+			for _, mc := range bound {
+				stored := false
+				for _, ref := range *mc.Referrers() {
+					st, isSt := ref.(*ssa.Store)
+					if !isSt {
+						continue
+					}
+					if ia, isIA := st.Addr.(*ssa.IndexAddr); isIA {
+						if al, isAl := ia.X.(*ssa.Alloc); isAl && (arr == nil || arr == al) {
+							arr, stored = al, true
+						}
+					}
+				}
+				if !stored {
+					okStore = false
+				}
+			}
+			good := false
+			if okStore && arr != nil {
+				for _, ref := range *arr.Referrers() {
+					sl, isSl := ref.(*ssa.Slice)
+					if !isSl {
+						continue
+					}
+					for _, l := range findElementLoops(fn, sl) {
+						// no early exit, element called on every iteration path, loop on every path to a return
+						exits := false
+						for _, b := range fn.Blocks {
+							if b != l.header && loopBlock(b, l.header) {
+								for _, sx := range b.Succs {
+									if sx != l.header && !loopBlock(sx, l.header) {
+										exits = true
+									}
+								}
+							}
+						}
+						bp, capped := simplePaths(l.body, map[*ssa.BasicBlock]bool{l.header: true}, 500)
+						calledAll := !capped
+						for _, path := range bp {
+							if path[len(path)-1] != l.header {
+								continue
+							}
+							called := false
+							for _, b := range path[:len(path)-1] {
+								for _, ins := range b.Instrs {
+									if c, isCall := ins.(*ssa.Call); isCall && !c.Call.IsInvoke() && c.Call.StaticCallee() == nil && l.elementOf(c.Call.Value) {
+										called = true
+									}
+								}
+							}
+							if !called {
+								calledAll = false
+							}
+						}
+						onAll := true
+						fp, fcap := simplePaths(fn.Blocks[0], map[*ssa.BasicBlock]bool{}, 2000)
+						if fcap {
+							onAll = false
+						}
+						for _, path := range fp {
+							if _, isRet := path[len(path)-1].Instrs[len(path[len(path)-1].Instrs)-1].(*ssa.Return); !isRet {
+								continue
+							}
+							through := false
+							for _, b := range path {
+								if b == l.header {
+									through = true
+								}
+							}
+							if !through {
+								onAll = false
+							}
+						}
+						if !exits && calledAll && onAll {
+							good = true
+						}
+					}
+				}
+			}
+			if good {
+				o.OK("every listed producer is called by a loop that runs to the end on every path")
+			} else {
+				o.Fail(load.FuncName(fn) + " keeps its warning producers in a list but does not call every one of them on every path: the warnings of the skipped producers are lost")
+			}
 			continue
 		}
 		o := r.Add("R20.j", load.FuncName(fn), p.Pos(fn.Pos()), fmt.Sprintf("%d warning producers on every path", len(prods)))
@@ -209,7 +315,14 @@ func c20Collects(p *load.Prog, r *oblig.Run) {
 		l elementLoop
 	}
 	var all []fl
-	for _, f := range append([]*ssa.Function{fn}, fn.AnonFuncs...) {
+	scan := append([]*ssa.Function{fn}, fn.AnonFuncs...)
+	for _, c := range su.Calls(fn) {
+		if h := c.Common().StaticCallee(); h != nil && h != fn && pkgPathOf(h) == load.PkgRoot && len(h.Blocks) > 0 && h.Signature.Results().Len() == 1 && h.Signature.Results().At(0).Type().String() == fn.Signature.Results().At(0).Type().String() {
+			scan = append(scan, h)
+			scan = append(scan, h.AnonFuncs...)
+		}
+	}
+	for _, f := range scan {
 		for _, l := range allElementLoops(f) {
 			all = append(all, fl{f, l})
 		}
